@@ -94,7 +94,17 @@ Proof.
   right. apply (lc_bound st HL L s HLr). apply last_opt_in. auto.
 Qed.
 
-Lemma lc_compact st dst : LC st -> 1 <= dst <= 8 -> LC (snd (compact st dst)).
+(** what [Compactor.Compact] does to a state satisfying [LC]: nothing to the replica, or it
+    appends one file to level [dst] that ends where the last input ends and carries the last
+    input's header timestamp *)
+Definition compact_shape (st st' : state) (dst : N) : Prop :=
+  st_rep st' = st_rep st \/
+  exists info lst, st_rep st' = upd (st_rep st) dst (st_rep st dst ++ [info]) /\
+                   In lst (st_rep st (dst - 1)) /\ s_max info = s_max lst /\
+                   s_created info = s_hts lst /\ s_hts info = s_hts lst /\ 1 <= s_min info.
+
+Lemma lc_compact_shape st dst : LC st -> 1 <= dst <= 8 ->
+  LC (snd (compact st dst)) /\ frame st (snd (compact st dst)) /\ compact_shape st (snd (compact st dst)) dst.
 Proof.
   intros HL Hd. unfold compact, cmp_max_info.
   (* the cache lookup *)
@@ -113,8 +123,8 @@ Proof.
   set (seek := s_max prev + 1).
   set (inputs := ltx_files (st_rep st1) (dst - 1) seek).
   destruct (range_of inputs) as [mn mx] eqn:ER.
-  destruct inputs as [|first rest] eqn:EI. { simpl. auto. }
-  destruct (negb (inputs_contiguous first rest)). { simpl. auto. }
+  destruct inputs as [|first rest] eqn:EI. { simpl. split; [auto|split; [auto|left; auto]]. }
+  destruct (negb (inputs_contiguous first rest)). { simpl. split; [auto|split; [auto|left; auto]]. }
   cbn [snd].
   assert (Hin: forall f, In f (first :: rest) -> In f (st_rep st (dst - 1)) /\ seek <= s_min f).
   { intros f Hf. rewrite <- EI in Hf. unfold inputs, ltx_files in Hf. apply filter_In in Hf.
@@ -148,6 +158,22 @@ Proof.
   { apply chainP_snoc; auto. simpl. rewrite <- (lmax_incr _ 0 L2). unfold seek in *. repeat split; auto; lia. }
   assert (Hnewmax: lmax (st_rep st dst ++ [info]) = mx).
   { change mx with (s_max info). apply (lmax_incr_snoc _ _ 0). eapply chainP_incrP; eauto. }
+  (* the last input ends at mx *)
+  assert (Hsrci: incrP 0 (st_rep st (dst - 1))).
+  { destruct (N.eq_dec dst 1) as [->|]. { apply runP_incrP. apply (lc_l0 st HL). }
+    eapply chainP_incrP. apply (lc_chain st HL). lia. }
+  assert (Hlst: In (last rest first) (first :: rest) /\ s_max (last rest first) = mx).
+  { assert (Hi: incrP 0 (first :: rest)).
+    { rewrite <- EI. unfold inputs, ltx_files. rewrite Hrep. apply incrP_filter. auto. }
+    assert (Hl: In (last rest first) (first :: rest)) by (apply last_opt_in; apply last_opt_cons_eq).
+    split; auto. pose proof (lmax_incr _ 0 Hi) as E. rewrite last_opt_cons_eq in E.
+    pose proof (lmax_in _ _ Hf2). destruct (R1 _ Hl). lia. }
+  destruct Hlst as [Hl1 Hl2].
+  split; [|split; [destruct Hfr as (F1&F2&F3); unfold frame, set_cache, set_rep; simpl; auto|]].
+  2:{ assert (Elst: match rest with [] => first | _ :: _ => last rest first end = last rest first) by (destruct rest; reflexivity).
+      right. exists info, (last rest first). unfold set_cache, set_rep. simpl. rewrite Hrep.
+      split; [reflexivity|]. destruct (Hin _ Hl1). split; [auto|]. split; [simpl; lia|].
+      unfold ts. rewrite Elst. split; [reflexivity|]. split; [reflexivity|]. simpl. unfold seek in *. lia. }
   destruct Hfr as (F1&F2&F3). destruct HL as [A B C D]. destruct HL1 as [A' B' C' D'].
   constructor; unfold set_cache, set_rep; simpl; rewrite ?Hrep, ?F1.
   - rewrite upd_other by lia. auto.
@@ -162,6 +188,9 @@ Proof.
     + apply N.eqb_eq in E. subst. intros [= <-]. rewrite upd_same. simpl. auto.
     + apply N.eqb_neq in E. rewrite upd_other by auto. intros Hc. rewrite <- Hrep. apply D'; auto.
 Qed.
+
+Lemma lc_compact st dst : LC st -> 1 <= dst <= 8 -> LC (snd (compact st dst)).
+Proof. intros. apply lc_compact_shape; auto. Qed.
 
 Lemma lc_db_max_info st L : LC st -> LC (snd (db_max_info st L)) .
 Proof.
